@@ -307,7 +307,7 @@ func (c *Classifier) LoadLicenses(dir string) error {
 		if err != nil {
 			return nil
 		}
-		if !strings.HasSuffix(path, "txt") {
+		if info.IsDir() || !strings.HasSuffix(path, "txt") {
 			return nil
 		}
 		files = append(files, path)
@@ -318,14 +318,20 @@ func (c *Classifier) LoadLicenses(dir string) error {
 	}
 
 	for _, f := range files {
-		relativePath := strings.Replace(f, dir, "", 1)
+		// Compute the path below dir with filepath.Rel rather than by string
+		// replacement, so that the result does not depend on how dir is spelled
+		// (trailing separator, "./" prefix, ".").
+		relativePath, err := filepath.Rel(dir, f)
+		if err != nil {
+			return err
+		}
 		sep := fmt.Sprintf("%c", os.PathSeparator)
 		segments := strings.Split(relativePath, sep)
 		if len(segments) < 3 {
 			c.tc.trace("Insufficient segment count for path: %s", relativePath)
 			continue
 		}
-		category, name, variant := segments[1], segments[2], segments[3]
+		category, name, variant := segments[0], segments[1], segments[2]
 		b, err := ioutil.ReadFile(f)
 		if err != nil {
 			return err
